@@ -846,6 +846,10 @@ func deleteExpiredCerts(ctx context.Context, storage Storage, logger *zap.Logger
 				continue
 			}
 			if len(siteAssets) == 0 {
+				// a plain file also lists as empty; only an (empty) folder is removed
+				if info, err := storage.Stat(ctx, siteKey); err != nil || info.IsTerminal {
+					continue
+				}
 				logger.Info("deleting site folder because key is empty", zap.String("site_key", siteKey))
 				err := storage.Delete(ctx, siteKey)
 				if err != nil {
